@@ -167,6 +167,13 @@ def build_ops():
        lambda st: (m_update([("w", 1), ("v", 2)], True)(st)[0], OK))           # two statements: no result to compare
     op("o = Share(data=odict([('w', 1), ('v', 2)])); sh.change(o)", "change",
        lambda st: (m_update([("w", 1), ("v", 2)], False)(st)[0], OK))
+    # positional and keyword parts in one call: positional arguments in order first, keywords after them
+    for meth, stamp in (("update", True), ("change", False)):
+        op("sh.%s({'w': 1}, v=2)" % meth, meth, m_update([("w", 1), ("v", 2)], stamp))
+        op("sh.%s([('v', 1)], v=2)" % meth, meth, m_update([("v", 1), ("v", 2)], stamp))
+        op("sh.%s(odict([('w', 2)]), [('v', 1)], w=1)" % meth, meth, m_update([("w", 2), ("v", 1), ("w", 1)], stamp))
+    op("sh.create({'w': 1}, v=2)", "create", m_create([("w", 1), ("v", 2)]))
+    op("sh.create(odict([('w', 2)]), [('v', 1)], w=1)", "create", m_create([("w", 2), ("v", 1), ("w", 1)]))
     # one create call naming the same field twice with different values: the first value stays, also against the later one
     op("sh.create(odict([('w', 1)]), w=2)", "create", m_create([("w", 1), ("w", 2)]))
     op("sh.create([('w', 2), ('w', 1)])", "create", m_create([("w", 2), ("w", 1)]))
@@ -493,6 +500,7 @@ def run():
         "an operation given an invalid field name must leave the share unchanged; raising versus silently ignoring is not compared",
         "invalid names: leading underscore, leading digit, empty, trailing newline, hyphen, space, and the name of an attribute every Data object already has (_show); "
         "each is tried through every adder including positional dict / odict / Share arguments of update, change and create, alone and ahead of a valid field",
+        "update / change / create apply their positional arguments in order and the keyword fields after them (field order and, for update/change, which value wins)",
         "create never overwrites, also within one call: when a call names a not yet existing field twice (mapping + keyword, repeated duple) the first value stays",
         "update/change/create return the share (chaining is relied upon by Store itself); del/pop/popitem of a missing field raise KeyError, pull on an empty deck IndexError",
         "the deck holds at most %d elements (adding operations are not applied beyond that)" % DECKCAP,
